@@ -43,22 +43,30 @@ ASSUMPTIONS = [
     "(scipy's as_euler gimbal threshold 1e-7 rad; DESIGN section 3 allows 1e-4 deg there)",
     "positions: 1e-9 in memory, 0.5e-6 through a STAR file; particles are matched by row order",
     "pixel size is known to the importer by constructor argument, an rlnPixelSize column or a one-row data_optics rlnImagePixelSize",
+    "a particle list may hold the same particle twice (exact duplicate rows): every row is a particle and must survive",
+    "identifiers are whole numbers below 2**53 (tomogram / subtomogram numbers; class numbers below 2**31 + 2 because they "
+    "travel as floats through pandas' text parser, which is not correctly rounded at 2**53)",
 ]
 CLASSES = ["random", "gimbal", "near_gimbal", "wide_angles", "lattice", "signed_pos", "n1", "n_large", "dup_subtomo",
            "no_halfset", "halfset_single", "numeric_names", "padded_names", "pixel_extremes", "optics_only_pixel",
-           "em_file_input", "sg_star_input"]
+           "em_file_input", "sg_star_input", "dup_particles", "large_coords", "block_sizes", "odd_number_text"]
 VERSIONS = [3.0, 3.1, 4.0]
+BLOCK_SIZES = [63, 64, 65, 127, 128, 129, 255, 256, 257, 299, 300]       # 2**k-1, 2**k, 2**k+1 inside the quantifier's 1..300, and its end
+BIG_IDS = [[100000, 100001], [2 ** 24, 2 ** 24 + 1], [2 ** 31 - 1, 2 ** 31, 2 ** 31 + 1], [2 ** 53 - 2, 2 ** 53 - 1]]
+BIG_COORDS = [99999.5, 100000.25, 123456.789012, 262144.5, 1048576.123456, 10000000.5, 100000.0000005, 999999.999999]
+ODD_VALUES = [3e-06, 5e-05, 1e-06, 1e-05, 0.0000005, 0.4999995, 0.5 - 2.0 ** -30, float(np.nextafter(0.5, 0)), 2.5e-06 - 1e-9, 7.5e-06 - 1e-7, -3e-06, -0.0]
+ODD_TOKENS = ["+3", ".5", "5.", "1E2", "3e-06", "1e+05", "-.25", "+.5", "9.E1", "1E-3", "-0.0", "1e-05", "7", "+45"]
 NUMERIC = set(O.COORD + O.ANGLES + O.ORIGIN_PX + O.ORIGIN_A + ["rlnClassNumber", "rlnRandomSubset", "rlnPixelSize"])
 
 
 def plan(tier):
     if tier == "quick":
-        return dict(n_cases=306, shards=3, classes=CLASSES, timeout_s=600,
+        return dict(n_cases=378, shards=4, classes=CLASSES, timeout_s=600,
                     min_evals={"export_df": 850, "star_export": 580, "import_df": 1450, "angles_to_relion": 500,
                                "angles_from_relion": 500, "shifts": 500, "roundtrip_mem": 300, "roundtrip_file": 300,
                                "converters": 580, "import_indep": 600, "import_halfset_single": 40,
                                "completes:RelionMotl(frame)": 30, "completes:relion2emmotl(frame)": 30})
-    return dict(n_cases=4080, shards=16, classes=CLASSES, timeout_s=3000,
+    return dict(n_cases=5040, shards=16, classes=CLASSES, timeout_s=3000,
                 min_evals={"export_df": 10000, "star_export": 7000, "import_df": 19000, "angles_to_relion": 6000,
                            "angles_from_relion": 6000, "shifts": 6000, "roundtrip_mem": 3900, "roundtrip_file": 3900,
                            "converters": 7000, "import_indep": 8000, "import_halfset_single": 400,
@@ -317,7 +325,7 @@ def setup(ctx):
     f_a2r = monitors.wrap(ctx, RM, "convert_angles_to_relion", "angles_to_relion", _a2r_post, _a2r_applicable, _a2r_snapshot)
     f_afr = monitors.wrap(ctx, RM, "convert_angles_from_relion", "angles_from_relion", _afr_post, _afr_applicable, _afr_snapshot)
     f_shift = monitors.wrap(ctx, RM, "convert_shifts", "shifts", _shift_post, lambda A: _shift_state(A) is not None, _shift_state)
-    ctx.declare("roundtrip_mem", "roundtrip_file", "converters", "import_indep", "import_halfset_single")
+    ctx.declare("roundtrip_mem", "roundtrip_file", "converters", "import_indep", "import_halfset_single", "history")
     monitors.trace(ctx, [
         ("RelionMotl.convert_angles_from_relion", f_afr, {"convert": "rot_ZYZ = rot.from_euler"}),
         ("RelionMotl.convert_angles_to_relion", f_a2r),
@@ -501,6 +509,8 @@ def _gen_relion(rng, cls, version, big, n_override=None, path_only=False):
     coords = rng.uniform(-900 if signed else 1, 900, (n, 3))
     if rng.random() < 0.3:
         coords = np.round(coords)
+    sub, tomo = np.asarray(sub, dtype=np.int64), np.asarray(tomo, dtype=np.int64)
+    planted = _plant_relion(rng, cls, n, coords, sub, tomo)
     org = rng.uniform(-12, 12, (n, 3)) * (4.0 if cls == "signed_pos" else 1.0)
     org[rng.random((n, 3)) < 0.1] = 0.0
     ang = np.column_stack([rng.uniform(-180, 180, n), rng.uniform(0, 180, n), rng.uniform(-180, 180, n)])
@@ -566,6 +576,19 @@ def _gen_relion(rng, cls, version, big, n_override=None, path_only=False):
     for e in extras:
         if rng.random() < 0.35:
             cols.append(e)
+    if cls == "odd_number_text" or rng.random() < 0.15:      # number tokens in unusual but legal forms (+3 .5 5. 1E2 3e-06 ...)
+        for lab, toks in cols:
+            if lab in O.COORD + O.ANGLES + list(origin):
+                for r in range(n):
+                    if rng.random() < 0.35:
+                        toks[r] = str(rng.choice(ODD_TOKENS))
+        planted.append("odd-tokens")
+    if n >= 2 and (cls == "dup_particles" or rng.random() < 0.2):       # the same RELION row twice
+        for _ in range(int(rng.integers(1, 4)) if cls == "dup_particles" else 1):
+            r_from, r_to = (int(v) for v in rng.choice(n, size=2, replace=False))
+            for lab, toks in cols:
+                toks[r_to] = toks[r_from]
+        planted.append("duplicates")
     order = rng.permutation(len(cols))
     cols = [cols[j] for j in order]
     optics = None
@@ -587,7 +610,77 @@ def _gen_relion(rng, cls, version, big, n_override=None, path_only=False):
     return {"n": n, "version": version, "ps": float(pstok), "pstype": pstype, "findex": _index_plan(rng, n), "src": src, "cols": cols, "optics": optics, "rel": rel, "loader": loader,
             "halfmode": halfmode, "block": bname, "angle_class": acls, "no_tomo_col": bool(no_tomo_col), "numbered": bool(rng.random() < 0.8),
             "sep": [" ", "\t", "  "][int(rng.integers(0, 3))], "width": int(rng.choice([0, 12, 13])), "opt": int(rng.integers(0, 4)),
-            "has_origin": not drop_origin, "name0": [tname[0], sname[0]]}
+            "has_origin": not drop_origin, "name0": [tname[0], sname[0]], "planted": planted}
+
+
+def _plant(rng, T, cls, big):
+    """rare-but-legal content a random generator does not produce: exact duplicate rows, |position| >= 1e5 with a
+    fractional part, adjacent identifiers at representability boundaries, values whose text form is unusual or that
+    sit just below a 6-decimal rounding tie.  -> list of what was planted"""
+    n, planted = len(T), []
+    free_ids = cls not in ("no_halfset", "padded_names", "em_file_input", "n1")
+    if cls == "large_coords" or rng.random() < 0.3:
+        rows = rng.choice(n, size=max(1, n // 2) if cls == "large_coords" else min(n, int(rng.integers(1, 4))), replace=False)
+        for r in rows:
+            for c in rng.choice(["x", "y", "z"], size=int(rng.integers(1, 4)), replace=False):
+                v = float(rng.choice(BIG_COORDS)) if rng.random() < 0.6 else float(np.round(10.0 ** rng.uniform(5, 7) + rng.random(), 7))
+                if cls == "large_coords" and rng.random() < 0.05:
+                    v = 1e16
+                T.loc[r, c] = v * float(rng.choice([-1.0, 1.0]))
+        planted.append("coords>=1e5")
+    if free_ids and n >= 2 and (cls == "large_coords" or rng.random() < 0.2):
+        grp = BIG_IDS[int(rng.integers(0, len(BIG_IDS)))]
+        rows = rng.choice(n, size=min(n, len(grp)), replace=False)
+        T.loc[rows, "subtomo_id"] = np.array(grp[:len(rows)], dtype=float)
+        if rng.random() < 0.5:
+            g2 = BIG_IDS[int(rng.integers(0, len(BIG_IDS)))]
+            k2 = min(len(rows), len(g2))
+            T.loc[rows[:k2], "tomo_id"] = np.array(g2[:k2], dtype=float)
+        if rng.random() < 0.5:
+            g3 = BIG_IDS[int(rng.integers(0, 3))]
+            k3 = min(len(rows), len(g3))
+            T.loc[rows[:k3], "class"] = np.array(g3[:k3], dtype=float)
+        planted.append("ids:%d" % grp[0])
+    if cls == "odd_number_text" or rng.random() < 0.2:
+        for _ in range(max(2, n // 2) if cls == "odd_number_text" else 2):
+            r = int(rng.integers(0, n))
+            c = str(rng.choice(["shift_x", "shift_y", "shift_z", "x", "phi", "theta", "psi"]))
+            v = float(rng.choice(ODD_VALUES))
+            if c.startswith("shift") and rng.random() < 0.5:
+                T.loc[r, c[-1]] = float(rng.integers(-3, 4))          # whole-number x: the complete position keeps the odd fraction
+            T.loc[r, c] = v + (float(rng.integers(0, 50)) * 1e-6 if rng.random() < 0.3 else 0.0)
+        planted.append("odd-text")
+    if n >= 2 and cls != "n1" and (cls == "dup_particles" or rng.random() < 0.3):
+        m = int(rng.integers(1, 4)) if cls == "dup_particles" else 1
+        for _ in range(m):
+            src, dst = (int(v) for v in rng.choice(n, size=2, replace=False))
+            if rng.random() < 0.3 and src + 1 < n:
+                dst = src + 1                                        # adjacent copies
+            T.iloc[dst] = T.iloc[src].to_numpy()
+            if rng.random() < 0.4:                                   # same particle, different score (scores are not exported)
+                T.loc[T.index[dst], "score"] = float(np.round(rng.random(), 6))
+        planted.append("duplicates")
+    return planted
+
+
+def _plant_relion(rng, cls, n, coords, sub, tomo):
+    """the same for the independent RELION data (before the tokens are formatted)"""
+    planted = []
+    if cls == "large_coords" or rng.random() < 0.25:
+        for r in rng.choice(n, size=max(1, n // 2) if cls == "large_coords" else 1, replace=False):
+            j = int(rng.integers(0, 3))
+            coords[r, j] = float(rng.choice(BIG_COORDS)) * float(rng.choice([-1.0, 1.0]))
+        planted.append("coords>=1e5")
+    if n >= 2 and cls in ("large_coords", "random", "signed_pos") and rng.random() < 0.6:
+        grp = BIG_IDS[int(rng.integers(0, len(BIG_IDS)))]
+        rows = rng.choice(n, size=min(n, len(grp)), replace=False)
+        sub[rows] = grp[:len(rows)]
+        if rng.random() < 0.5:
+            g2 = BIG_IDS[int(rng.integers(0, 3))]
+            k2 = min(len(rows), len(g2))
+            tomo[rows[:k2]] = g2[:k2]
+        planted.append("ids:%d" % grp[0])
+    return planted
 
 
 def gen(ctx, i, cls):
@@ -599,6 +692,9 @@ def gen(ctx, i, cls):
         n = 1
     elif cls == "n_large":
         n = int(rng.choice([100, 300])) if not big else 300
+    k_cycle = i // len(CLASSES)
+    if cls == "block_sizes":
+        n = BLOCK_SIZES[k_cycle % len(BLOCK_SIZES)]
     signed = cls == "signed_pos"
     T = gens.motl_table(rng, n, tomos=int(rng.integers(1, 5)), ori="random", pos_scale=600.0 if signed else 300.0, signed=signed)
     a = _euler(rng, n, cls)
@@ -616,6 +712,7 @@ def gen(ctx, i, cls):
     if cls == "no_halfset":              # one half only on the export side
         T["subtomo_id"] = T["subtomo_id"] * 2 - int(rng.integers(0, 2))
     T["class"] = rng.choice([0.0, 1.0, 2.0, 3.0, 12.0], n)
+    planted = _plant(ctx.rng(i, 3), T, cls, big)
     ps = _pixel(rng, cls)
     tf, sf = _formats(rng, version, cls, ps)
     optics = bool(version >= 3.1 and (cls == "optics_only_pixel" or rng.random() < 0.5))
@@ -625,17 +722,19 @@ def gen(ctx, i, cls):
         conv, inp = "emmotl2relion", "em_file"
     elif cls == "sg_star_input":
         conv, inp = "stopgap2relion", "sg_star"
-    D = _gen_relion(rng, cls, version, big)
+    D = _gen_relion(rng, cls, version, big, n_override=BLOCK_SIZES[(k_cycle + 5) % len(BLOCK_SIZES)] if cls == "block_sizes" else None)
     # a second, different file for the SAME path (same or different particle count, same or another version)
     rng2 = ctx.rng(i, 2)
     v2 = version if rng2.random() < 0.5 else VERSIONS[int(rng2.integers(0, 3))]
     D2 = _gen_relion(rng2, cls, v2, big, n_override=D["n"] if rng2.random() < 0.5 else int(rng2.choice([1, 2, 3, 5, 8, 13])), path_only=True)
     case = {"i": i, "cls": cls, "T": T, "version": version, "ps": ps, "tf": tf, "sf": sf, "optics": optics, "conv": conv, "inp": inp,
             "D": D, "D2": D2, "rt_index": _index_plan(rng2, n), "export_style": ["ctor", "call"][int(rng.integers(0, 2))], "reimport": int(rng.integers(0, 3)),
-            "conv_opts": [int(v) for v in rng.integers(0, 2, 4)]}
+            "conv_opts": [int(v) for v in rng.integers(0, 2, 4)], "planted": planted,
+            "hist": {"delta": [float(v) for v in np.round(ctx.rng(i, 4).uniform(-40, 40, 3), 3)], "dphi": float(np.round(ctx.rng(i, 4).uniform(-170, 170), 2)),
+                     "style": int(ctx.rng(i, 4).integers(0, 2))}}
     r0 = {k: float(T[k].iloc[0]) for k in ("x", "shift_x", "phi", "theta", "psi", "subtomo_id", "tomo_id")}
     case["summary"] = {"class": cls, "version": version, "n": n, "pixel_size": ps, "tomo_format": tf, "subtomo_format": sf, "optics": optics,
-                       "converter": conv, "converter_input": inp, "row0": r0,
+                       "converter": conv, "converter_input": inp, "row0": r0, "planted": planted, "independent_planted": D["planted"],
                        "reimport_table": case["rt_index"]["mode"],
                        "second_file": {"n": D2["n"], "version": D2["version"], "loader": D2["loader"], "pixel_size": D2["ps"], "pixel_type": D2["pstype"],
                                        "pixel_source": D2["src"]},
@@ -799,6 +898,82 @@ def _run_independent(ctx, case):
     _import_independent(ctx, case["D2"], path, "B (replaced A at the same path)")
 
 
+def _mutate(df, h, step):
+    """in-place edit of a particle table; the same edit is applied to the driver's own copy"""
+    d = np.array(h["delta"]) * (1 if step == 1 else -0.5)
+    df["x"] = df["x"].to_numpy() + d[0]
+    df["y"] = df["y"].to_numpy() + d[1]
+    df["shift_z"] = df["shift_z"].to_numpy() + d[2]
+    df["phi"] = df["phi"].to_numpy() + h["dphi"] * step
+    df["theta"] = 180.0 - df["theta"].to_numpy() if step == 1 else df["theta"].to_numpy() * 0.5
+    df["class"] = df["class"].to_numpy()[::-1].copy()
+
+
+def _run_history(ctx, case, names_ok):
+    cm, T, v, ps, h = ctx.cm, case["T"], case["version"], case["ps"], case["hist"]
+    tf, sf = case["tf"], case["sf"]
+    path = os.path.join(ctx.scratch, "history.star")
+    mine = T.copy()                               # the driver's record of what the table holds at each moment
+    if h["style"] == 0:
+        # the object's own table is edited in place between exports
+        ok, m = ctx.call("RelionMotl(df,version,pixel_size,binning)", cm.RelionMotl, T.copy(), version=v, pixel_size=ps, binning=1.0)
+        if not ok:
+            return
+        holder = lambda: m
+        target = m.df
+    else:
+        # a caller-owned table is handed over again after being edited in place
+        owned = T.copy()
+        holder = lambda: ctx.call("RelionMotl(df,version,pixel_size,binning)", cm.RelionMotl, owned, version=v, pixel_size=ps, binning=1.0)[1]
+        target = owned
+    for step in (0, 1, 2):
+        if step:
+            _mutate(target, h, step)
+            _mutate(mine, h, step)
+        m_now = holder()
+        if m_now is None:
+            return
+        now = O.snap_motl(mine)
+        ok, rdf = ctx.call("create_relion_df(history)", m_now.create_relion_df, tomo_format=tf, subtomo_format=sf)
+        if ok:
+            _relation(ctx, "history", O.check_export(now, _frame_to_rel(rdf), v, O.TOL_POS_MEM, O.TOL_ROT_MEM, names_ok) if isinstance(rdf, pd.DataFrame)
+                      else {"clause": "returns a table"}, step=step, what="export in memory", style=h["style"], version=v)
+        ok, _ = ctx.call("write_out(history)", m_now.write_out, path, write_optics=case["optics"], tomo_format=tf, subtomo_format=sf)
+        if ok:
+            _relation(ctx, "history", file_export_witness(path, now, v, names_ok), step=step, what="written file", style=h["style"], version=v)
+            ok2, back = ctx.call("RelionMotl(path)", cm.RelionMotl, path, pixel_size=ps)
+            if ok2:
+                _relation(ctx, "history", O.check_roundtrip(now, back.df, O.TOL_POS_FILE, O.TOL_ROT_FILE), step=step, what="file read back",
+                          style=h["style"], version=v)
+    # import side: a caller-owned RELION table is edited in place and converted again, also by the same holder object
+    ok, m0 = ctx.call("RelionMotl(df,version,pixel_size,binning)", cm.RelionMotl, T.copy(), version=v, pixel_size=ps, binning=1.0)
+    ok, F = ctx.call("create_relion_df(history)", m0.create_relion_df, tomo_format=tf, subtomo_format=sf) if ok else (False, None)
+    if not ok or not isinstance(F, pd.DataFrame):
+        return
+    origin = O.version_names(v)[2]
+    okh, same = ctx.call("RelionMotl(None,version,pixel_size)", cm.RelionMotl, None, version=v, pixel_size=ps)
+    for step in (0, 1, 2):
+        if step:
+            for j, c in enumerate(O.COORD):
+                F[c] = F[c].to_numpy() + h["delta"][j] * step
+            F["rlnAngleRot"] = F["rlnAngleRot"].to_numpy() + h["dphi"]
+            F["rlnAngleTilt"] = 180.0 - F["rlnAngleTilt"].to_numpy()
+            F[origin[0]] = F[origin[0]].to_numpy() + 1.25 * step
+            F["rlnClassNumber"] = F["rlnClassNumber"].to_numpy()[::-1].copy()
+        rel = _frame_to_rel(F)
+        ok, b = ctx.call("RelionMotl(relion_df)", cm.RelionMotl, F, version=v, pixel_size=ps)
+        if ok:
+            w, _ = O.check_import(b.df, rel, v, ps)
+            _relation(ctx, "history", w, step=step, what="import of the edited table (new object)", version=v)
+        if okh:
+            ok, _ = ctx.call("convert_to_motl(history)", same.convert_to_motl, F, version=v)
+            if ok:
+                w, _ = O.check_import(same.df, rel, v, ps)
+                _relation(ctx, "history", w, step=step, what="import of the edited table (same object again)", version=v)
+    if os.path.exists(path):
+        os.remove(path)
+
+
 def run_case(ctx, case):
     cm, T, v, ps, i = ctx.cm, case["T"], case["version"], case["ps"], case["i"]
     tf, sf = case["tf"], case["sf"]
@@ -852,6 +1027,9 @@ def run_case(ctx, case):
             okh, mh = ctx.call("RelionMotl(df,version,pixel_size,binning)", cm.RelionMotl, T.copy(), version=v, pixel_size=ps, binning=1.0)
             if okh:
                 ctx.call("create_relion_df(direct)", mh.create_relion_df, tomo_format=tf, subtomo_format=sf)
+    # G. three-step histories with in-place mutation between the calls (every call judged against the values held then)
+    if len(T) <= 130 and (i // len(CLASSES) + i % len(CLASSES)) % 3 == 0:       # every class x version, one case in three
+        _run_history(ctx, case, names_ok)
     # D. converters
     _run_converter(ctx, case, snap, names_ok)
     # E. independent RELION data
